@@ -166,6 +166,18 @@ def run(ctx):
                 if not nan_equal(sv, raw):
                     bad = f'select_index(wind_index({n})) differs from flattened element {n}'
                     break
+            if not bad and len(tbl) >= 2:
+                # all cells selected in one batch, in linear order: position n of the batch is flattened element n
+                natives = [ems.wind_index(n, grid_kind=enums[kind]) for n in range(len(tbl))]
+                b = attempt(ems.select_indexes, natives)
+                if b[0] != 'ok' or vname not in b[1].data_vars:
+                    bad = f'select_indexes of every cell of the {kind} grid failed: {b[1]}'
+                else:
+                    got = b[1][vname]
+                    got = got.transpose(*[x for x in got.dims if x != 'index'], 'index')
+                    want = flat.transpose(*[x for x in flat.dims if x != flat.dims[-1]], flat.dims[-1])
+                    if got.shape != want.shape or not nan_equal(got.values, want.values):
+                        bad = 'selecting every cell in one batch (in linear order) does not reproduce the flattened variable'
             if bad:
                 ctx.report('property', bad, case)
         # ---- spatial index hits are linear positions
